@@ -51,6 +51,29 @@ def classify(prop, f, tr, trace_text):
         m = re.search(r'asset kind (\d+) id (\d+)', f['what'])
         key = (m.group(1), m.group(2)) if m else None
         pubs = [p for p, w in ops if w[0] == 'addasset' and (w[1], w[2]) == key]
+        mp = re.search(r'peer (\d+) holds', f['what'])
+        if key is not None and mp and key[0] in ('1', '2', '3'):
+            # S26: the stale peer joined (the host handled its RequestInitialSync) while the host's own
+            # download of an announced version of the id was still pending: the snapshot handed out the
+            # host's old copy and the completed download is debounced, never announced
+            stale = mp.group(1)
+            cls = {'1': 'mesh', '2': 'image', '3': 'audio'}[key[0]]
+            pending, window = False, False
+            for ev in tr['events']:
+                if ev[0] != 'frame' or ev[1].peer != 0:
+                    continue
+                fr = ev[1]
+                announced = any(m[0] == 'asset' and m[1] == cls and m[2] == key[1] for _, m in fr.rcv)
+                applied = any(w[0] == 'DL' and w[2] == key[0] and w[3] == key[1] for w in (l.split() for l in fr.lines))
+                joined = any(m[0] == 'reqinit' and frm == stale for frm, m in fr.rcv)
+                if joined and (pending or announced) and not (applied and not announced):
+                    window = True
+                if announced:
+                    pending = True
+                if applied and not announced:
+                    pending = False
+            if window:
+                return 'S26-join-during-host-download'
         if key is not None:
             # S23: the host relays live asset traffic of a class it has disabled, but leaves the class out
             # of the snapshot it sends to later joiners
